@@ -98,13 +98,14 @@ def build_harness():
     return os.path.join(tdir, "debug", "harness"), time.time() - t0
 
 
-def build_replay():
+def build_replay(release=False):
     t0 = time.time()
     tdir = os.path.join(WORK, "target-replay")
-    p = run(["cargo", "build", "--offline", "--target-dir", tdir], cwd=os.path.join(ENGINE, "replay"), check=False)
+    cmd = ["cargo", "build", "--offline", "--target-dir", tdir] + (["--release"] if release else [])
+    p = run(cmd, cwd=os.path.join(ENGINE, "replay"), check=False)
     if p.returncode != 0:
         raise BuildError("the replay binary does not build against /repo with feature verif:\n" + p.stdout[-6000:])
-    return os.path.join(tdir, "debug", "replay"), time.time() - t0
+    return os.path.join(tdir, "release" if release else "debug", "replay"), time.time() - t0
 
 
 if __name__ == "__main__":
